@@ -1132,7 +1132,15 @@ impl<'s> Semantics<'s> {
             let block = control_flow_graph.new_block()?;
 
             // get started
-            let dst = self.operand_load(block, &detail.operands[0])?;
+            let mut dst = self.operand_load(block, &detail.operands[0])?;
+
+            // The target is read before the return address is pushed: `call rsp`
+            // jumps to the old stack pointer.
+            if detail.operands[0].type_ == x86_op_type::X86_OP_REG {
+                let target = self.temp(0, dst.bits());
+                block.assign(target.clone(), dst);
+                dst = target.into();
+            }
 
             let ret_addr = self.instruction().address + self.instruction().size as u64;
 
